@@ -12,16 +12,18 @@
    and for a run of rejected fields anywhere in the input (C09_unknown_preserved_run: appended in
    input order, decoding continues after it); unknown_reemitted; discard_unknown.
    schema_evolution: decode S (encode S' (decode S' (encode S m))) = m, identity of canonical values, for
-   S' = S with an arbitrary set of fields deleted in every message type ([msg_restrict keep S]), is
-   proved for every valid m whose populated fields are of scalar kind ([msg_flat]: all 16 scalar kinds,
-   explicit/implicit/required presence, packed and expanded lists, maps with scalar values, oneofs
-   of scalars, extensions, unknown fields): C09_schema_evolution_partial.  MISSING for the general
-   statement: populated message-/group-typed fields and maps with message values -- their encodings
-   (full schema) are decoded by the reduced schema one level down, which needs the same induction with
-   two schemas at every depth (and, for deleted group fields, the wire-scanner completeness for
-   encoder output); for those it is checked on the implementation and against the model on every run
-   (harness op `evo`) and computed on the C03 example (C09_schema_evolution_example).  The hypothesis
-   "an encoding of a message" is necessary: C09_schema_evolution_arbitrary_bytes_refuted. *)
+   S' = S with an ARBITRARY set of fields deleted in every message type ([msg_restrict keep S]), is
+   proved for every valid m whose populated top-level fields that are KEPT are of scalar kind
+   ([msg_kept_scalar]: all 16 scalar kinds, explicit/implicit/required presence, packed and expanded
+   lists, maps with scalar values, oneofs of scalars, extensions); the DELETED populated fields are
+   arbitrary -- scalars, messages with any nested content, groups, lists and maps of messages -- and so
+   are the unknown fields: C09_schema_evolution_partial.  MISSING for the general statement: populated
+   message-/group-typed fields and maps with message values that are KEPT -- their encodings (full
+   schema) are decoded by the reduced schema one level down, which needs the same induction with two
+   schemas at every depth; for those it is checked on the implementation and against the model on
+   every run (harness op `evo`) and computed on the C03 example (C09_schema_evolution_example).
+   The hypothesis "an encoding of a message" is necessary:
+   C09_schema_evolution_arbitrary_bytes_refuted. *)
 From Coq Require Import List NArith ZArith.
 From PB Require Import Base.PBytes Wire.WireModel.
 From PB Require Import Msg.MsgSchema Msg.MsgValue Msg.MsgEnc Msg.MsgDec Msg.MsgValid Msg.MsgRoundP Msg.MsgExample
@@ -81,14 +83,14 @@ Theorem C09_schema_evolution_partial :
   forall (slow : bool) (S : schema) (keep : nat -> N -> bool) (limit : nat) (fs : fields) (unk : list byte),
     msg_valid slow S limit O (VMsg fs unk) = true ->
     msg_valid true S limit O (VMsg fs unk) = true ->
-    msg_flat (nth O S []) fs = true ->
+    msg_kept_scalar (keep O) (nth O S []) fs = true ->
     msg_evolve slow S (msg_restrict keep S) limit (msg_encode S O (VMsg fs unk)) = DOk (VMsg fs unk).
-Proof. exact msg_schema_evolution_flat. Qed.
+Proof. exact msg_schema_evolution_kept_scalar. Qed.
 Print Assumptions C09_schema_evolution_partial.
 Example C09_schema_evolution_partial_nonvacuous :
-  msg_valid false ex_schema 3 O (VMsg ex_flat_fs []) = true /\ msg_valid true ex_schema 3 O (VMsg ex_flat_fs []) = true /\
-  msg_flat (nth O ex_schema []) ex_flat_fs = true.
-Proof. exact ex_flat_ok. Qed.
+  msg_valid false ex_schema 3 O ex_msg = true /\ msg_valid true ex_schema 3 O ex_msg = true /\
+  (match ex_msg with VMsg fs _ => msg_kept_scalar (ex_keep_scalar O) (nth O ex_schema []) fs | _ => false end) = true.
+Proof. exact ex_kept_scalar_ok. Qed.
 
 Theorem C09_schema_evolution_arbitrary_bytes_refuted :
   exists S keep bs v v',
